@@ -10,11 +10,12 @@ PROPS = {
                       "SerialJoin::join's body is verified against the Join contract",
         "level_note": "rayon_core::join (RayonJoin::join) is ASSUMED to meet the Join contract and to be data-race free; "
                       "interleavings are argued from frames + Rust aliasing rules, not explored; the C/C++ TBB half is not "
-                      "applicable (C++); on the C side blake3_hasher_update_tbb (same contract as blake3_hasher_update) and the "
+                      "applicable (C++); on the C side the frames of the two leaf functions (compress_chunks_parallel / compress_parents_parallel write only their own output window - the non-interference of the two halves), blake3_hasher_update_base for every value of use_tbb, and  blake3_hasher_update_tbb (same contract as blake3_hasher_update) and the "
                       "-DBLAKE3_USE_TBB build of blake3_compress_subtree_wide are checked against an assumed contract of the "
                       "oneTBB join seam; update_mmap_rayon (unit io) == update_reader on a freshly opened file",
         "units": {"quick": [v("tree"), v("tree", "A", join_order="rl"), v("hasher"), v("spec_lemmas"), v("io"),
-                            c("blake3_hasher_update_tbb"), c("blake3_compress_subtree_wide_tbb"), g("c_statics"), g("tbb_seam")],
+                            c("blake3_hasher_update_tbb"), c("blake3_compress_subtree_wide_tbb"), c("blake3_hasher_update_base"),
+                            c("compress_chunks_parallel"), c("compress_parents_parallel"), g("c_statics"), g("tbb_seam")],
                   "thorough": [v("hasher", "A", join_order="rl"), s("C08")]},
         "explanation": "update_rayon == update_with_join::<RayonJoin>; both are instances of the generic function proved once "
                        "for all J. Determinism under every schedule follows from: results are functions of the inputs "
